@@ -61,6 +61,7 @@ class Session(object):
         self.values = {}                     # name -> values accepted for a field of that name
         self.max_handles = max_handles
         self.counts = {}
+        self.kept_sets = {}
         # set when add_field / a call overflowed the stack (known finding: a scope whose values come from different
         # branches): the field tree is left half-built, whatever the object does afterwards is undefined - and
         # differs between equally good implementations (a recursive layout overflows too, an iterative one returns
@@ -81,7 +82,15 @@ class Session(object):
         for t in tags:
             if t not in self.tags:
                 self.tags.append(t)
-        targ = None if (not tags and tagform != 1) else (" ".join(tags) if tagform == 0 else list(tags))
+        # the shapes "a string or collection of strings" takes: 0 a space-separated string, 1 a list, 2 a set of the
+        # caller's, 3 ONE set object per combination of tags that the caller keeps and hands to every definition
+        # with those tags (what is recorded is the tags this definition was given; the set is never changed here)
+        if tagform in (0, 1) or not tags:
+            targ = None if (not tags and tagform != 1) else (" ".join(tags) if tagform == 0 else list(tags))
+        elif tagform == 2:
+            targ = set(tags)
+        else:
+            targ = self.kept_sets.setdefault(frozenset(tags), set(tags))
         try:
             h.add_field(name, length=length, start_at=start, tags=targ)
             res = "ok"
@@ -400,7 +409,7 @@ def random_history(rng, mode, unsafe_ok=False):
         tags = ()
         if rng.random() < 0.3:
             tags = tuple(sorted(rng.sample(TAGS, rng.randint(1, 2))))
-        s.add(scope, name, ln, st, tags, rng.randrange(3))
+        s.add(scope, name, ln, st, tags, rng.randrange(5) % 4)
 
     def do_call():
         scope = dict(rng.choice(list(s.handles)))
